@@ -15,7 +15,7 @@ Definition ak_hdrs (k : ak) : list hdr := match k with AKReq k' _ => rk_hdrs k' 
 
 Definition loop_hdrs (pc : lpc) : list hdr :=
   match pc with
-  | LSync1 p => [p]
+  | LSync1 (Some p) | LSync2 p => [p]
   | LFirst from _ | LGet from _ => [from]
   | LReq k from _ => from :: rk_hdrs k
   | LApp0 k hs | LApp2 k hs => hs ++ ak_hdrs k
@@ -29,6 +29,7 @@ Definition thr_hdrs (t : tpc) : list hdr :=
   match t with
   | TRun _ _ x st rest => (match st with SL1 nh => [nh] | _ => [] end) ++ x :: rest
   | THd1 sbj _ => [sbj]
+  | TVer _ _ _ (Some p) | THd0c _ (Some p) => [p]
   | _ => []
   end.
 
@@ -54,9 +55,7 @@ Definition enters (c : cfg) (e : event) : list hdr :=
     end
   | ET i =>
     match nth_error (c_thr c) i with
-    | Some (TWait x now b) => if c_mu c then [] else
-        match ranges_head (c_pend c) with Some p => fst (vwork' p x now b) | None => [] end
-    | Some (TVer x now b) => fst (vwork' (c_cache c) x now b)
+    | Some (TVer x now b ph) => fst (vwork' (pick_head ph (c_cache c)) x now b)
     | Some (THd1 sbj (Some x)) => if h_height x <=? h_height sbj then [] else [x]
     | _ => []
     end
@@ -165,15 +164,22 @@ Qed.
 Lemma flow_l a c y :
   pc_ok (c_loop c) -> In y (all_hdrs (l_step a c)) -> In y (all_hdrs c) \/ In y (enters c (EL a)).
 Proof.
-  intros Hpc. unfold l_step, enters, all_hdrs. destruct (c_loop c) as [| |p|from to|from to|k from to|k hs|k hs nh|k hs|oto lst|] eqn:Elp.
+  intros Hpc. unfold l_step, enters, all_hdrs. destruct (c_loop c) as [| |ph|p|from to|from to|k from to|k hs|k hs nh|k hs|oto lst|] eqn:Elp.
   - destruct (c_trig c); intros H; left; mem.
-  - pose proof (rinv_head) as _. destruct (ranges_head (c_pend c)) as [p|] eqn:Ep; intros H; [|left; mem].
+  - destruct (ranges_head (c_pend c)) as [p|] eqn:Ep; intros H; [|left; mem].
     assert (Hp : In p (ranges_all (c_pend c))).
     { unfold ranges_head in Ep. destruct (last_opt (c_pend c)) as [r|] eqn:Er; [|discriminate].
       apply last_opt_in in Er. unfold range_head in Ep. apply last_opt_in in Ep.
       unfold ranges_all. apply in_flat_map. exists r. split; assumption. }
     assert (Hp' : p = y -> In y (ranges_all (c_pend c))) by (intros <-; exact Hp).
     left. mem.
+  - assert (Hpk : pick_head ph (c_cache c) = y -> c_cache c = y \/ ph = Some y).
+    { unfold pick_head. destruct ph as [p|]; [destruct (_ <? _)|]; intros <-; auto. }
+    destruct ph as [p|]; intros H; left.
+    + assert (Hpk' : pick_head (Some p) (c_cache c) = y -> c_cache c = y \/ p = y) by (intros E; destruct (Hpk E) as [E'|E']; [left; exact E'|right; congruence]).
+      mem.
+    + assert (Hpk' : pick_head None (c_cache c) = y -> c_cache c = y) by (intros E; destruct (Hpk E) as [E'|E']; [exact E'|discriminate]).
+      mem.
   - destruct (_ <=? _); [|intros H; left; mem].
     destruct (ranges_remove_upto (h_height (c_cache c)) (c_pend c)) as [rs|] eqn:Eu; [|intros H; left; mem].
     assert (Hsub : In y (ranges_all rs) -> In y (ranges_all (c_pend c))) by (apply (remove_upto_sub _ _ _ y Eu)).
@@ -220,6 +226,14 @@ Proof.
   destruct (pr ++ (if ok then [x] else [])); reflexivity.
 Qed.
 
+Lemma verdict_shape now b t x :
+  verdict drift tv now b t x = TDone false \/ exists res w r, verdict drift tv now b t x = TRun true res w SL0 r.
+Proof.
+  unfold verdict. destruct (Verify now drift tv t x) as [e|]; [|right; eexists _, _, _; reflexivity].
+  destruct (ve_soft e); [|left; reflexivity]. destruct b as [pr ok].
+  destruct (pr ++ (if ok then [x] else [])); [left; reflexivity|right; eexists _, _, _; reflexivity].
+Qed.
+
 Lemma head_in_pending P p : ranges_head P = Some p -> In p (ranges_all P).
 Proof.
   unfold ranges_head. intros Ep. destruct (last_opt P) as [r|] eqn:Er; [|discriminate].
@@ -246,21 +260,23 @@ Lemma flow_t i c y :
 Proof.
   unfold t_step, enters. destruct (nth_error (c_thr c) i) as [t|] eqn:En; [|intros H; left; exact H].
   assert (Hold : In y (thr_hdrs t) -> In y (flat_map thr_hdrs (c_thr c))) by (apply (flat_nth i t _ y En)).
-  destruct t as [h now b|h now b|a|a|sbj a|mu res x st rest|r]; cbn [t_body].
+  assert (Hpk : forall ph, pick_head ph (c_cache c) = y -> c_cache c = y \/ ph = Some y).
+  { intros ph. unfold pick_head. destruct ph as [p|]; [destruct (_ <? _)|]; intros <-; auto. }
+  destruct t as [h now b|h now b ph|a|a ph|sbj a|mu res x st rest|r]; cbn [t_body].
   - destruct (c_mu c); [intros H; left; exact H|].
-    cbn [c_pend]. change (c_pend (c <| c_mu := true |>)) with (c_pend c).
-    destruct (ranges_head (c_pend c)) as [p|] eqn:Ep.
-    + unfold enter. rewrite <- verdict_hdrs.
-      destruct (verdict drift tv now b p h) as [| | | | |m2 r2 x2 s2 rest2|r2]; intros H; apply all_hdrs_set_thr in H; cbn in H;
-        cbn [thr_hdrs]; (destruct H as [H|[H|[H|[H|[H|H]]]]]; try (left; apply all_hdrs_intro; tauto); right; exact H).
-    + intros H. apply all_hdrs_set_thr in H. cbn in H. left. apply all_hdrs_intro. tauto.
-  - unfold enter. rewrite <- verdict_hdrs.
-    destruct (verdict drift tv now b (c_cache c) h) as [| | | | |m2 r2 x2 s2 rest2|r2]; intros H; apply all_hdrs_set_thr in H; cbn in H;
-      cbn [thr_hdrs]; (destruct H as [H|[H|[H|[H|[H|H]]]]]; try (left; apply all_hdrs_intro; tauto); right; exact H).
-  - destruct (ranges_head (c_pend c)) as [p|] eqn:Ep; intros H; apply all_hdrs_set_thr in H; cbn in H; left; apply all_hdrs_intro; [|tauto].
-    pose proof (head_in_pending _ _ Ep) as Hp. destruct H as [H|[H|[H|[H|[[H|[]]|H]]]]]; try tauto. subst y. tauto.
+    intros H. apply all_hdrs_set_thr in H. cbn in H. left. apply all_hdrs_intro.
+    destruct (ranges_head (c_pend c)) as [p|] eqn:Ep; [|cbn in H; tauto].
+    pose proof (head_in_pending _ _ Ep) as Hp. cbn in H. destruct H as [H|[H|[H|[H|[[H|[]]|H]]]]]; try tauto. subst y. tauto.
+  - unfold enter. pose proof (verdict_hdrs now b (pick_head ph (c_cache c)) h) as Hv.
+    destruct (verdict_shape now b (pick_head ph (c_cache c)) h) as [E|(res & w & r & E)]; rewrite E in *; intros H; apply all_hdrs_set_thr in H; cbn in H.
+    + left. apply all_hdrs_intro. tauto.
+    + rewrite <- Hv. cbn [thr_hdrs app]. destruct H as [H|[H|[H|[H|[H|H]]]]]; try (left; apply all_hdrs_intro; tauto). right. exact H.
+  - intros H. apply all_hdrs_set_thr in H. cbn in H. left. apply all_hdrs_intro.
+    destruct (ranges_head (c_pend c)) as [p|] eqn:Ep; [|cbn in H; tauto].
+    pose proof (head_in_pending _ _ Ep) as Hp. cbn in H. destruct H as [H|[H|[H|[H|[[H|[]]|H]]]]]; try tauto. subst y. tauto.
   - intros H; apply all_hdrs_set_thr in H; cbn in H. left; apply all_hdrs_intro.
-    destruct H as [H|[H|[H|[H|[[H|[]]|H]]]]]; try tauto. subst y. tauto.
+    destruct H as [H|[H|[H|[H|[[H|[]]|H]]]]]; try tauto.
+    destruct (Hpk ph H) as [E|E]; [right; left; symmetry; exact E|]. right; right; right; right. apply Hold. rewrite E. cbn. left. reflexivity.
   - destruct a as [x|]; [|intros H; apply all_hdrs_set_thr in H; cbn in H; left; apply all_hdrs_intro; tauto].
     destruct (h_height x <=? h_height sbj); intros H; apply all_hdrs_set_thr in H; cbn in H.
     + left; apply all_hdrs_intro; tauto.
@@ -424,8 +440,8 @@ Definition hts (c : cfg) : list N := map h_height (rs_log (c_store c) ++ reserve
 
 Definition thr_wf (t : tpc) : Prop :=
   match t with
-  | TWait x _ (Bif pr _) | TVer x _ (Bif pr _) => hok x /\ forall p, In p pr -> P p
-  | THd0 (Some x) | THd0c (Some x) | THd1 _ (Some x) => hok x
+  | TWait x _ (Bif pr _) | TVer x _ (Bif pr _) _ => hok x /\ forall p, In p pr -> P p
+  | THd0 (Some x) | THd0c (Some x) _ | THd1 _ (Some x) => hok x
   | TRun _ _ x (SL1 nh) _ => h_height nh = h_height x
   | _ => True
   end.
@@ -487,7 +503,7 @@ Qed.
 Lemma enters_P c e : Inv c -> wf_event e -> forall y, In y (enters drift tv c e) -> P y.
 Proof.
   intros HI Hw y Hy. destruct e as [h now b|a|a|i]; cbn [enters] in Hy; try destruct Hy.
-  - destruct (c_loop c) as [| |p|from to|from to|k from to|k hs|k hs nh|k hs|oto lst|] eqn:Elp; try destruct Hy.
+  - destruct (c_loop c) as [| |ph|p|from to|from to|k from to|k hs|k hs nh|k hs|oto lst|] eqn:Elp; try destruct Hy.
     destruct a as [|[|x l]]; try destruct Hy. cbn [wf_event] in Hw. destruct Hw as [Hk Hc].
     destruct (h_height from <? to); [|destruct Hy]. cbn [andb] in Hy.
     destruct (N.eqb_spec (h_height x) (wrap64 (h_height from + 1))) as [Ex|]; [|destruct Hy].
@@ -557,13 +573,7 @@ Proof.
   inversion HT; subst. destruct i; cbn; constructor; auto.
 Qed.
 
-Lemma verdict_shape now b t x :
-  verdict drift tv now b t x = TDone false \/ exists res w r, verdict drift tv now b t x = TRun true res w SL0 r.
-Proof.
-  unfold verdict. destruct (Verify now drift tv t x) as [e|]; [|right; eexists _, _, _; reflexivity].
-  destruct (ve_soft e); [|left; reflexivity]. destruct b as [pr ok].
-  destruct (pr ++ (if ok then [x] else [])); [left; reflexivity|right; eexists _, _, _; reflexivity].
-Qed.
+
 
 Lemma step_thr c e : Inv c -> wf_event e -> Forall thr_wf (c_thr (step drift tv c e)).
 Proof.
@@ -577,9 +587,9 @@ Proof.
     unfold t_body, enter, t_next, set_thr.
     destruct t as [h now b|h now b|a|a|sbj a|mu res x st rest|r]; try exact HT.
     + destruct (c_mu c); [exact HT|]. cbn. destruct (ranges_head _).
-      * destruct (verdict_shape now b h0 h) as [->|(res & w & r & ->)]; cbn; apply thr_wf_upd; auto; exact I.
+      * destruct (verdict_shape drift tv now b h0 h) as [->|(res & w & r & ->)]; cbn; apply thr_wf_upd; auto; exact I.
       * cbn. apply thr_wf_upd; auto.
-    + destruct (verdict_shape now b (c_cache c) h) as [->|(res & w & r & ->)]; cbn; apply thr_wf_upd; auto; exact I.
+    + destruct (verdict_shape drift tv now b (c_cache c) h) as [->|(res & w & r & ->)]; cbn; apply thr_wf_upd; auto; exact I.
     + destruct (ranges_head _); cbn; (apply thr_wf_upd; [exact HT|]); destruct a; exact Ht || exact I.
     + cbn. apply thr_wf_upd; [exact HT|]. destruct a; exact Ht || exact I.
     + brk; cbn; (apply thr_wf_upd; [exact HT|]); exact I.
@@ -609,7 +619,7 @@ Proof.
   intros HI Hw. pose proof (i_rinv c HI) as Hri.
   destruct e as [h now b|a|a|i]; cbn [step]; try exact Hri.
   - unfold l_step, l_finish, after_req, after_app.
-    destruct (c_loop c) as [| |p|from to|from to|k from to|k hs|k hs nh|k hs|oto lst|] eqn:Elp.
+    destruct (c_loop c) as [| |ph|p|from to|from to|k from to|k hs|k hs nh|k hs|oto lst|] eqn:Elp.
     + brk; cbn; rewrite ?Heqr; exact Hri.
     + brk; cbn; rewrite ?Heqr; exact Hri.
     + destruct (_ <=? _); [|cbn; exact Hri].
@@ -628,8 +638,8 @@ Proof.
     unfold t_body, enter, t_next, set_thr.
     destruct t as [h now b|h now b|a|a|sbj a|mu res x st rest|r]; try exact Hri.
     + destruct (c_mu c); [exact Hri|]. cbn. destruct (ranges_head _); [|exact Hri].
-      destruct (verdict_shape now b h0 h) as [->|(res & w & r & ->)]; exact Hri.
-    + destruct (verdict_shape now b (c_cache c) h) as [->|(res & w & r & ->)]; exact Hri.
+      destruct (verdict_shape drift tv now b h0 h) as [->|(res & w & r & ->)]; exact Hri.
+    + destruct (verdict_shape drift tv now b (c_cache c) h) as [->|(res & w & r & ->)]; exact Hri.
     + destruct (ranges_head _); exact Hri.
     + brk; exact Hri.
     + destruct st; brk; cbn; try exact Hri.
@@ -750,7 +760,7 @@ Lemma step_closed_l a c :
 Proof.
   intros HI Hw. pose proof (i_pc c HI) as Hpc. pose proof (i_rinv c HI) as Hri.
   unfold l_step, l_finish, after_req.
-  destruct (c_loop c) as [| |p|from to|from to|k from to|k hs|k hs nh|k hs|oto lst|] eqn:Elp.
+  destruct (c_loop c) as [| |ph|p|from to|from to|k from to|k hs|k hs nh|k hs|oto lst|] eqn:Elp.
   - destruct (c_trig c); (frm c HI Elp).
   - destruct (ranges_head (c_pend c)); (frm c HI Elp).
   - destruct (_ <=? _); [|frm c HI Elp].
@@ -875,10 +885,10 @@ Proof.
   unfold t_body, enter, t_next.
   destruct t as [h now b|h now b|a|a|sbj a|mu res x st rest|r].
   - destruct (c_mu c); [exact Hsame|]. cbn. destruct (ranges_head (c_pend c)).
-    + destruct (verdict_shape now b h0 h) as [->|(res & w & r & ->)];
+    + destruct (verdict_shape drift tv now b h0 h) as [->|(res & w & r & ->)];
         fthr c i tt En HI.
     + fthr c i tt En HI.
-  - destruct (verdict_shape now b (c_cache c) h) as [->|(res & w & r & ->)];
+  - destruct (verdict_shape drift tv now b (c_cache c) h) as [->|(res & w & r & ->)];
       fthr c i tt En HI.
   - destruct (ranges_head (c_pend c)); fthr c i tt En HI.
   - fthr c i tt En HI.
@@ -1231,7 +1241,8 @@ Definition qpc (c : cfg) : Prop :=
   match c_loop c with
   | LIdle => ranges_all (c_pend c) <> [] -> woke c \/ ss_err (c_state c) <> None
   | LSync | LPanic => True
-  | LSync1 p => tinv c (h_height p)
+  | LSync1 ph => match ph with Some p => tinv c (h_height p) | None => pwoke c end
+  | LSync2 p => tinv c (h_height p)
   | LFirst _ to => tinv c to
   | LGet _ to => tinv c to /\ fne (c_pend c)
   | LReq k _ to => rk_q c k to
@@ -1287,7 +1298,7 @@ Lemma q_lstep a c : Inv tail c -> qpc c -> qpc (l_step a c).
 Proof.
   intros HI HQ. pose proof (i_rinv tail c HI) as Hri. unfold qpc in HQ.
   unfold l_step, l_finish, after_req, after_app.
-  destruct (c_loop c) as [| |p|from to|from to|k from to|k hs|k hs nh|k hs|oto lst|] eqn:Elp.
+  destruct (c_loop c) as [| |ph|p|from to|from to|k from to|k hs|k hs nh|k hs|oto lst|] eqn:Elp.
   - destruct (c_trig c) eqn:Et; unfold qpc; cbn; [exact I|rewrite Elp; exact HQ].
   - pose proof (rinv_head _ Hri) as Hh. destruct (ranges_head (c_pend c)) as [p|] eqn:Ep; unfold qpc; cbn.
     + destruct Hh as [_ Hmax]. intros q Hq Hlt. specialize (Hmax q Hq). lia.
@@ -1354,7 +1365,7 @@ Proof.
   assert (HA : forall k, ak_q c k -> ak_q c' k).
   { intros k. destruct k; cbn; [apply HR|apply HT]. }
   unfold qpc in *. rewrite El, Es.
-  destruct (c_loop c) as [| |p|from to|from to|k from to|k hs|k hs nh|k hs|oto lst|]; auto.
+  destruct (c_loop c) as [| |ph|p|from to|from to|k from to|k hs|k hs nh|k hs|oto lst|]; auto.
   - intros Hne. destruct (ranges_all (c_pend c')) as [|y l] eqn:Ey; [contradiction|].
     destruct (Hp y (or_introl eq_refl)) as [Hin|Hwk]; [|left; exact Hwk].
     destruct HQ as [H|H]; [intros E0; rewrite E0 in Hin; destruct Hin|left; apply Hw; exact H|right; exact H].
